@@ -103,6 +103,125 @@ def s_scenarios():
     return out
 
 
+# ------------------------------------------------------------------------------------------
+# every body of a bounded line grammar over POP3
+LINE_TOKENS = ["", ".", "..", ".a", "a", "...b "]
+
+
+def body_cases(tier):
+    """Every sequence of <= K lines over LINE_TOKENS, with and without the final line terminator."""
+    import itertools
+
+    K = 3 if tier == "quick" else 4
+    toks = LINE_TOKENS[:5] if tier == "quick" else LINE_TOKENS
+    out = [("", True)]
+    for k in range(1, K + 1):
+        for seq in itertools.product(toks, repeat=k):
+            out.append(("\r\n".join(seq) + "\r\n", True))
+            if seq[-1] != "":
+                out.append(("\r\n".join(seq), False))
+    return out
+
+
+def work_bodies(unit):
+    """unit: list of (how, [bodies]) -- `how` is append (CRLF literal through IMAP) or deliver (LF file written by an MH tool).
+    Oracle, per message: RETR's un-stuffed payload is the message (CRLF line ends; one CRLF added only if it lacks a final one),
+    its octet count is what STAT / LIST / RETR announce; TOP n k un-stuffs to the header lines followed by a prefix of the body's lines
+    (blank lines not compared: which lines TOP selects is outside C20)."""
+    from .. import msgs, templates
+    from ..respparse import pop3_split
+    from ..runner import Failure
+    from ..sessions import imap_literal
+    from ..world import World
+
+    fails, n_eval = [], 0
+    tmpl = templates.simple_inbox("c20-empty", 0, others=())
+    for how, bodies in unit:
+        w = World(tmpl)
+        tr = []
+        rp = {"driver": "c20-bodies", "how": how, "bodies": bodies}
+
+        def fail(rule, det, exp=None, obs=None):
+            fails.append(Failure(PROP, rule, det, rp, exp, obs, list(tr[-10:])))
+
+        try:
+            w.start()
+            a = w.connect("A")
+            want = []
+            for i, body in enumerate(bodies, 1):
+                m = msgs.make(f"b{i}", body=body)
+                if how == "append":
+                    r, _ = a.do(f"APPEND INBOX () {msgs.idate(i)} ".encode() + imap_literal(m))
+                    if r is None or r.typ != "OK":
+                        raise RuntimeError(f"APPEND refused: {r}")
+                else:
+                    w.deliver("inbox", m.replace(b"\r\n", b"\n"))
+                want.append(m)
+            p = w.connect("P", pop3=True)
+            w.loop.settle()
+
+            def pop(line, ml):
+                out = p.pop3_do(line)
+                tr.append(f"C[P]: {line} -> {out[:120]!r}")
+                rep, errs = pop3_split(out, [ml])
+                for e in errs:
+                    fail("C20.malformed-reply", {"cmd": line.split()[0], "error": e.split(":")[0][:50]}, None, out[:200].decode("latin-1"))
+                return rep[0] if rep else (None, None)
+
+            st, payload = pop("LIST", True)
+            listed = {int(x.split()[0]): int(x.split()[1]) for x in (payload or [])}
+            if sorted(listed) != list(range(1, len(bodies) + 1)):
+                fail("C20.list-numbers", {"how": how}, list(range(1, len(bodies) + 1)), sorted(listed))
+            total = 0
+            for i, m in enumerate(want, 1):
+                n_eval += 1
+                shape = {"how": how, "final_newline": m.endswith(b"\r\n"), "body": bodies[i - 1][:40]}
+                st, payload = pop(f"RETR {i}", True)
+                if st is None or not st.startswith(b"+OK") or payload is None:
+                    fail("C20.retr-refused", shape, "+OK", st)
+                    continue
+                got = b"\r\n".join(payload) + (b"\r\n" if payload else b"")
+                exp = m if m.endswith(b"\r\n") else m + b"\r\n"
+                if got != exp:
+                    fail("C20.retr-content", shape, exp[-60:].decode("latin-1"), got[-60:].decode("latin-1"))
+                try:
+                    announced = int(st.split()[1])
+                except (IndexError, ValueError):
+                    fail("C20.retr-no-size", shape, None, st.decode("latin-1"))
+                    continue
+                # (a message without a final line terminator is stored / served with one: the octets delivered are then len(m) + 2,
+                # and the announcement may count them or not -- the H part's rule)
+                padded = len(got) == announced + 2 and not got[:announced].endswith(b"\r\n")
+                if announced != len(got) and not padded:
+                    fail("C20.retr-size-vs-octets", dict(shape, diff=len(got) - announced), len(got), announced)
+                if listed.get(i) != announced:
+                    fail("C20.size-changed", dict(shape, where="LIST vs RETR"), listed.get(i), announced)
+                total += announced
+                hdr, _, btxt = m.partition(b"\r\n\r\n")
+                blines = btxt.split(b"\r\n")
+                if blines and blines[-1] == b"":
+                    blines.pop()
+                for k in (0, 1, 2, 5):
+                    st, payload = pop(f"TOP {i} {k}", True)
+                    if st is None or not st.startswith(b"+OK") or payload is None:
+                        fail("C20.retr-refused", dict(shape, top=k), "+OK", st)
+                        continue
+                    # Which lines TOP selects is not part of C20 (as built it sends a second blank line after the header and skips a
+                    # leading blank body line); what is: the reply is framed and stuffed so that un-stuffing gives back message lines.
+                    got_l = [x for x in payload if x != b""]
+                    hl = hdr.split(b"\r\n")
+                    bl = [x for x in blines if x != b""]
+                    ok = got_l[: len(hl)] == hl and got_l[len(hl) :] == bl[: len(got_l) - len(hl)] and (k < len(blines) or len(got_l) == len(hl) + len(bl))
+                    if not ok:
+                        fail("C20.top-stuffing", dict(shape, top=k), [x.decode("latin-1") for x in (hl + bl)[-4:]], [x.decode("latin-1") for x in payload[-4:]])
+            st, _ = pop("STAT", False)
+            if st is None or st.split()[1:3] != [str(len(want)).encode(), str(total).encode()]:
+                fail("C20.stat-total", {"how": how}, f"+OK {len(want)} {total}", st)
+        finally:
+            w.close()
+    return fails, n_eval
+
+
 def cfg_open():
     """Start state: the POP3 session is already in TRANSACTION state (its snapshot taken)."""
     c = dict(cfg(3))
@@ -167,11 +286,31 @@ def run(tier, seed, jobs):
         res.coverage["traces_validated_against_impl"] += r["executions"]
         per.append({"scenario": sc["name"], "executions": r["executions"], "bound": r["bound_completed"], "outcomes": r["distinct_outcomes"], "cap": r["cap"]})
     res.coverage["schedule_part"] = per
+    from ..runner import pmap, seeded_order
+
+    bodies = body_cases(tier)
+    units = []
+    for how in ("append", "deliver"):
+        for i in range(0, len(bodies), 8):
+            units.append([(how, [b for b, _nl in bodies[i : i + 8]])])
+    nb = 0
+    for f, k in pmap(work_bodies, seeded_order(units, seed), jobs):
+        res.failures.extend(f)
+        nb += k
+    res.coverage["body_grammar_messages"] = nb
+    res.coverage["states"] += nb
+    res.coverage["transitions"] += nb * 6
+    res.coverage["traces_validated_against_impl"] += nb
+    res.assumptions.append(f"body part: every body of <= {3 if tier == 'quick' else 4} lines over the line alphabet {LINE_TOKENS[:5] if tier == 'quick' else LINE_TOKENS}, with and "
+                           "without a final line terminator, stored through IMAP APPEND (CRLF) and by an MH tool (LF file); RETR / LIST / STAT / TOP n k for k in 0,1,2,5 "
+                           "compared with the message itself (for TOP: non-blank lines only)")
     return res
 
 
 def replay(rec):
     rp = rec["replay"]
+    if rp.get("driver") == "c20-bodies":
+        return work_bodies([(rp["how"], rp["bodies"])])[0]
     if rp.get("driver") == "s":
         from ..explore import sched
 
